@@ -194,7 +194,7 @@ def step (cfg : Cfg) (st : St) : Op → Out (St × String)
       | some r => do
         let (st, acc) ← r
         pure (st, if acc then "ret=1" else "ret=0")
-  | .pcopy d s ow => if !heldP st d || !heldP st s then skipR st else okR (penCopy st d s ow)
+  | .pcopy d s ow => if !heldP st d || !heldP st s then skipR st else okR (penCopy cfg.penCopyKeepsSrc st d s ow)
   | .pcopyattr d s => if !heldP st d || !heldP st s then skipR st else okR (penCopyAttr st d s)
   | .pbind k acts =>
     if !heldP st k then skipR st
